@@ -165,3 +165,26 @@ def count_arg(rng, k, p=0.35):
         if int(k) <= np.iinfo(t).max:
             return t(k), t.__name__
     return int(k), "int"
+
+
+def mixed_steps_x(rng, m):
+    """steps of very different size in ONE series, the narrow ones next to x = 0 where the grid resolves them fully:
+    (a) gaps shrinking geometrically over 5..8 decades towards the origin, or (b) a regular polling grid in which one
+    poll was repeated 1e-5..1e-3 of a step later.  Used only by the integral properties (per-interval quantities must
+    not inherit rounding from the wide intervals before them)."""
+    if m < 4:
+        return None
+    if rng.integers(0, 2):
+        decades = float(rng.uniform(5, 8))
+        gaps = 10.0 ** (-decades * np.arange(m - 1) / (m - 2))          # 1 ... 10**-decades
+        gaps = gaps * float(rng.choice([1.0, 300.0, 0.01]))
+        x = -np.cumsum(gaps[::-1])[::-1]                                # ..., -(g_last + g_prev), -g_last
+        x = np.concatenate([x, [0.0]])
+        if rng.integers(0, 2):
+            x = -x[::-1]                                                # mirrored: narrow first, then wide
+        return np.asarray(x, dtype=float), "mixed_steps:geometric"
+    step = float(rng.choice([300.0, 1.0, 3600.0]))
+    j = int(rng.integers(1, m - 2))
+    x = step * (np.arange(m - 1, dtype=float) - j)
+    x = np.sort(np.concatenate([x, [step * float(rng.choice([1e-5, 1e-4, 1e-3]))]]))
+    return np.asarray(x, dtype=float), "mixed_steps:repeated_poll"
